@@ -81,6 +81,10 @@ func specSort(ty string) string {
 		return SDyn
 	case "arr2":
 		return arrSort(SInt, arrSort(SInt, SInt))
+	case "sbmap": // key set of a map[string]T
+		return arrSort(SStr, SBool)
+	case "sdmap": // values of a map[string]any
+		return arrSort(SStr, SDyn)
 	}
 	panic(specFailure{"unknown spec type " + ty})
 }
